@@ -99,9 +99,14 @@ def try_match(toks, i, pat):
             binds[pe] = toks[j:k]
             j = k
         elif pe.startswith("$") and len(pe) > 1:
+            want = None
+            if ":" in pe:
+                want = pe.split(":")[1]
             if j >= n or toks[j].kind not in ("id", "str", "num", "char", "life"):
                 return None
-            binds[pe] = [toks[j]]
+            if want is not None and toks[j].kind != want:
+                return None
+            binds[pe.split(":")[0]] = [toks[j]]
             j += 1
         else:
             if j >= n or toks[j].text != pe:
@@ -157,6 +162,26 @@ def apply(name, toks):
 # ---------------------------------------------------------------------------
 # rule catalogue
 # ---------------------------------------------------------------------------
+
+rule("D6.starts_with_lit",
+     "$recv . starts_with ( $l:str )",
+     "shim_starts_with_str ( $recv , $l )",
+     "str::starts_with with a string-literal pattern")
+
+rule("D6.contains_char",
+     "$recv . contains ( $c:char )",
+     "shim_contains_char ( $recv , $c )",
+     "str::contains with a char-literal pattern")
+
+rule("D6.parse_i64_string",
+     "$recv . parse :: < i64 > ( )",
+     "shim_parse_i64 ( $recv . as_str ( ) )",
+     "String -> str::parse::<i64>")
+
+rule("D6.parse_i64_str",
+     "$recv . parse :: < i64 > ( )",
+     "shim_parse_i64 ( $recv )",
+     "str::parse::<i64>")
 
 rule("D6.take_digits",
      "$recv . chars ( ) . take_while ( char :: is_ascii_digit ) . collect ( )",
